@@ -424,6 +424,33 @@ struct Explorer {
         it->second.mtime = d->Tick();
         return true;
       }
+      case Op::kDupDepsRecord: {
+        // a long history for the deps log: the current deps record of `path` appended `content` more times
+        auto it = d->files.find(kDeps);
+        if (it == d->files.end()) return false;
+        string& data = it->second.data;
+        lp::DepsLogModel m = lp::ParseDepsLog(data);
+        if (!m.header_ok || !m.clean || m.records > 900) return false;
+        auto e = m.deps.find(op.path);
+        if (e == m.deps.end()) return false;
+        auto id_of = [&](const string& pth) {
+          for (size_t i = 0; i < m.paths.size(); ++i) if (m.paths[i] == pth) return (int32_t)i;
+          return (int32_t)-1;
+        };
+        string rec;
+        auto W = [&](uint32_t w) { rec.append((const char*)&w, 4); };
+        uint32_t size = (uint32_t)(12 + 4 * e->second.deps.size());
+        W(size | 0x80000000u);
+        W((uint32_t)id_of(op.path));
+        W((uint32_t)((uint64_t)e->second.mtime & 0xffffffffu));
+        W((uint32_t)((uint64_t)e->second.mtime >> 32));
+        for (auto& dp : e->second.deps) W((uint32_t)id_of(dp));
+        int n = atoi(op.content.c_str());
+        if (n <= 0) n = 1100;
+        for (int i = 0; i < n; ++i) data += rec;
+        it->second.mtime = d->Tick();
+        return true;
+      }
       default: return false;
     }
   }
@@ -918,6 +945,9 @@ struct Explorer {
       if (!s.depfile.empty() && s.deps.empty() && base.Get(s.depfile) && !cur.Get(s.depfile)) {
         affected[i] = 1; why[i] = "depfile deleted";
       }
+      if (!s.deps.empty() && DiscoveredDepsAvailable(s, base) && !DiscoveredDepsAvailable(s, cur)) {
+        affected[i] = 1; why[i] = "record in the deps log lost";
+      }
     }
     Expect ex(*v, cur);
     function<bool(int)> Runs = [&](int i) -> bool {
@@ -1211,6 +1241,48 @@ struct Explorer {
       }
     }
     return v;
+  }
+
+  /// C09 at process level: any invocation that opens the deps log (builds, -t recompact, -t deps, the
+  /// automatic recompaction of a log with a long history) keeps, unchanged, the record of every output
+  /// that still has a build statement using deps and whose command it did not run.
+  void CheckDepsLogHandling(const Op& op, const RunResult& r, const vfs::Disk& before, const vfs::Disk& after,
+                            vector<Violation>* out) {
+    if (r.hang || r.crashed || r.horizon) return;
+    const vfs::File* fb = before.Get(kDeps);
+    if (!fb) return;
+    lp::DepsLogModel d0 = lp::ParseDepsLog(fb->data);
+    if (!d0.header_ok || !d0.clean) return;     // damaged logs: engine C
+    if (op.dry_run || op.tool_dry) return;
+    if (op.tool && op.tool_kind != "recompact" && op.tool_kind != "cleandead" && op.tool_kind != "deps" &&
+        op.tool_kind != "query" && op.tool_kind != "missingdeps" && op.tool_kind != "restat")
+      return;
+    lp::DepsLogModel d1;
+    if (const vfs::File* fa = after.Get(kDeps)) d1 = lp::ParseDepsLog(fa->data);
+    const Variant* v = VariantOf(sc, after);
+    if (!v) return;
+    set<string> started;
+    for (auto& c : r.cmds) for (auto& o : c.spec.outs) started.insert(o);
+    if (!r.cmds.empty() && r.cmds.back().cycle > 0) return;   // the manifest was regenerated: other statements
+    for (auto& kv : d0.deps) {
+      auto p = v->producer.find(kv.first);
+      if (p == v->producer.end()) continue;
+      const Stmt& s = v->stmts[p->second];
+      if (s.phony || s.deps.empty()) continue;
+      if (started.count(kv.first)) continue;
+      auto it = d1.deps.find(kv.first);
+      if (it != d1.deps.end() && it->second == kv.second) continue;
+      bool by_dyndep = find(s.outs.begin(), s.outs.end(), kv.first) == s.outs.end();
+      Violation x; x.prop = "C09"; x.clause = "live-deps-record-lost";
+      x.detail = "'" + op.label + "': the deps record of '" + kv.first + "' (statement " + s.id + ", deps = " + s.deps + ") " +
+                 (it == d1.deps.end() ? "was dropped" : "changed") + " although its command did not run";
+      x.facts.set("output", kv.first);
+      x.facts.set("output_supplied_by_dyndep_information", by_dyndep);
+      x.facts.set("dropped", it == d1.deps.end());
+      x.facts.set("tool", op.tool ? op.tool_kind : string("build"));
+      out->push_back(x);
+      return;
+    }
   }
 
   /// C08 at process level: what ninja (any invocation) does to an existing build log.
@@ -2331,6 +2403,7 @@ struct Explorer {
       bool success = r.exit_code == 0 && !r.hang && !r.crashed && !r.horizon;
       bool content_bad = false;
       if (props.count("C08")) CheckLogHandling(op, r, w.disk, d, &vs);
+      if (props.count("C09")) CheckDepsLogHandling(op, r, w.disk, d, &vs);
       if (op.tool && op.tool_kind.compare(0, 5, "clean") == 0) {
         if (Want("C18")) CheckClean(op, r, w.disk, d, &vs);
       } else if (op.tool && (op.tool_kind == "restat" || op.tool_kind == "recompact")) {
@@ -2678,6 +2751,7 @@ struct Explorer {
         vector<Violation> vs;
         bool success = r.exit_code == 0 && !r.hang && !r.crashed;
         if (props.count("C08")) CheckLogHandling(op, r, before, w.disk, &vs);
+        if (props.count("C09")) CheckDepsLogHandling(op, r, before, w.disk, &vs);
         if (op.tool && op.tool_kind.compare(0, 5, "clean") == 0) CheckClean(op, r, before, w.disk, &vs);
         else if (op.tool && (op.tool_kind == "restat" || op.tool_kind == "recompact")) {}
         else if (op.tool || op.dry_run) CheckReadOnly(op, r, before, w.disk, &vs);
